@@ -124,8 +124,8 @@ def run(c):
         if r.rc != 0:
             raise vlib.Inconclusive("SubgridLayout evaluation failed:\n" + r.out[-2500:])
         c.add_model("SubgridLayout (tables)", r, "%d layouts with copies, 27 + 27x26 table entries" % len(llines))
-        mt = re.search(r'<<"TABLES", (TRUE|FALSE)>>', r.out)
-        mb = re.search(r'<<"BADLAYOUTS", (\{[^}]*\})>>', r.out)
+        mt = re.search(r'<<\s*"TABLES",\s*(TRUE|FALSE)\s*>>', r.out)
+        mb = re.search(r'<<\s*"BADLAYOUTS",\s*(\{[^}]*\})\s*>>', r.out, re.S)
         if not mt or not mb:
             raise vlib.Inconclusive("SubgridLayout printed no verdict:\n" + r.out[-1500:])
         if mt.group(1) != "TRUE":
@@ -226,6 +226,8 @@ def compare_multi(c, cs, rs, S, g):
             for iz in range(N[2]):
                 exp[(ix % G[0]) * G[1] * G[2] + (iy % G[1]) * G[2] + (iz % G[2])] += rs["dep4"][i] / 4. * ps
                 i += 1
+    if not all(math.isfinite(x) for x in list(g["dep"]) + list(g["end"])):
+        return c.violation("split:nonfinite:%s" % sig, "non-finite path length or position (%s, layout %s)" % (info["case"], S), info)
     code_abs = g["out"] == 0
     if code_abs != rs["absorbed"]:
         return c.violation("split:absorbed:%s" % sig, "split grid says %s, undivided geometry says %s (%s, layout %s)" % (
@@ -234,6 +236,10 @@ def compare_multi(c, cs, rs, S, g):
         if abs(x - y) > tol:
             return c.violation("split:deposit:%s" % sig, "cell %d is credited %r, undivided geometry gives %r (%s, layout %s, hops %s)" % (
                 j, y, x, info["case"], S, g["hops"]), info)
+    for j, (x, y) in enumerate(zip(exp, g.get("heat", []))):
+        if abs(x - y) > tol:
+            return c.violation("split:heating:%s" % sig, "heating estimator of cell %d credits %r, undivided geometry gives %r (%s, layout %s)" % (
+                j, y, x, info["case"], S), info)
     # end point (folded back into the box on periodic axes)
     endl = [rs["end96"][k] / 96. for k in range(3)]
     for k in range(3):
